@@ -267,6 +267,8 @@ func (db *DB) compactionCommit(name string, rec *sessionRecord) {
 }
 
 func (db *DB) memCompaction() {
+	verifJobBegin()
+	defer verifJobEnd()
 	mdb := db.getFrozenMem()
 	if mdb == nil {
 		return
@@ -332,6 +334,8 @@ func (db *DB) memCompaction() {
 	}
 	db.compStats.addStat(flushLevel, stats)
 	atomic.AddUint32(&db.memComp, 1)
+
+	verifYield(5)
 
 	// Drop frozen memdb.
 	db.dropFrozenMem()
@@ -553,6 +557,8 @@ func (b *tableCompactionBuilder) revert() error {
 }
 
 func (db *DB) tableCompaction(c *compaction, noTrivial bool) {
+	verifJobBegin()
+	defer verifJobEnd()
 	defer c.release()
 
 	rec := &sessionRecord{}
@@ -577,6 +583,7 @@ func (db *DB) tableCompaction(c *compaction, noTrivial bool) {
 	}
 	sourceSize := stats[0].read + stats[1].read
 	minSeq := db.minSeq()
+	verifEvent(300, minSeq, uint64(c.sourceLevel))
 	db.logf("table@compaction L%d·%d -> L%d·%d S·%s Q·%d", c.sourceLevel, len(c.levels[0]), c.sourceLevel+1, len(c.levels[1]), shortenb(sourceSize), minSeq)
 
 	b := &tableCompactionBuilder{
